@@ -95,6 +95,22 @@ def main(ctx):
                            'quirk': case['quirk']},
                           f'peer {case["quirk"]}: ' + '; '.join(mine),
                           replay={'kind': 'extreme', **case})
+    # the same with the roles swapped: the real client is the opener and a
+    # raw server confirms the channel with these values
+    for quirk in ('none', 'dropbear_zlib'):
+        for win_ in values:
+            for pkt_ in values:
+                case, bad = chan_raw.extreme_size_cases_client(quirk, win_,
+                                                               pkt_)
+                ctx.count(('extreme-client', win_, pkt_, quirk))
+                mine = [b for b in bad if b.startswith('C08')]
+                if mine:
+                    ctx.violation({'module': 'ChannelRaw', 'kind':
+                                   'extreme-client', 'window': win_,
+                                   'pktsize': pkt_, 'quirk': quirk},
+                                  f'peer {quirk} (server role): '
+                                  + '; '.join(mine),
+                                  replay={'kind': 'extreme-client', **case})
     for window in ((100,) if quick else (1, 2, 100, 65536)):
         for case, bad in chan_raw.excess_cases(window):
             ctx.count(('excess', window, case['paused'], case['shape']))
